@@ -329,5 +329,7 @@ func TestC01(t *testing.T) {
 		}
 	}), c01Prop(t, r, "collision_orders"))
 
+	hx.Rapid(r, t, "free_running_sessions", r.N(600, 8000), genFreeRunning, frProp(t, r, "free_running_sessions"))
+
 	hx.Rapid(r, t, "churn", r.N(2500, 25000), func(rt *rapid.T) script { return genScript(rt, c01Profile) }, c01Prop(t, r, "churn"))
 }
